@@ -264,6 +264,9 @@ pub enum DecompressBlockError {
     SequencesHeaderParseError(SequencesHeaderParseError),
     DecodeSequenceError(DecodeSequenceError),
     ExecuteSequencesError(ExecuteSequencesError),
+    LiteralsTooLarge {
+        regenerated_size: u32,
+    },
 }
 
 #[cfg(feature = "std")]
@@ -300,6 +303,13 @@ impl core::fmt::Display for DecompressBlockError {
             DecompressBlockError::SequencesHeaderParseError(e) => write!(f, "{e:?}"),
             DecompressBlockError::DecodeSequenceError(e) => write!(f, "{e:?}"),
             DecompressBlockError::ExecuteSequencesError(e) => write!(f, "{e:?}"),
+            DecompressBlockError::LiteralsTooLarge { regenerated_size } => {
+                write!(
+                    f,
+                    "Literals section regenerates {regenerated_size} bytes, more than the maximum block size of {MAX_BLOCK_SIZE}",
+                    MAX_BLOCK_SIZE = crate::common::MAX_BLOCK_SIZE
+                )
+            }
         }
     }
 }
@@ -684,6 +694,7 @@ pub enum ExecuteSequencesError {
     DecodebufferError(DecodeBufferError),
     NotEnoughBytesForSequence { wanted: usize, have: usize },
     ZeroOffset,
+    BlockTooLarge { size: u32 },
 }
 
 impl core::fmt::Display for ExecuteSequencesError {
@@ -700,6 +711,13 @@ impl core::fmt::Display for ExecuteSequencesError {
             }
             ExecuteSequencesError::ZeroOffset => {
                 write!(f, "Illegal offset: 0 found")
+            }
+            ExecuteSequencesError::BlockTooLarge { size } => {
+                write!(
+                    f,
+                    "Block regenerates at least {size} bytes, more than the maximum block size of {MAX_BLOCK_SIZE}",
+                    MAX_BLOCK_SIZE = crate::common::MAX_BLOCK_SIZE
+                )
             }
         }
     }
